@@ -61,6 +61,9 @@ def _plugs(ctx):
 # ---------------------------------------------------------------- Tier 2: generated kernel-checked obligations
 
 def generated_obligations(ctx, proof, broken):
+    global T2DIR
+    if ctx.thorough and not T2DIR.endswith("_thorough"):
+        T2DIR = T2DIR + "_thorough"      # the two tiers keep separate compiled caches
     L = _lib()
     plugs = _plugs(ctx)
     files = []
